@@ -494,4 +494,14 @@ def no_memo(repo: Repo) -> RuleRun:
 
 no_memo.rule_id = "C07.NO-MEMO"
 
-RULES = [kind_registry, dedup, direction, reversal, face_edge_slots, curve_direction, edge_slots, length_direction, arc_side, validity_tolerance, own_edge_data, no_memo]
+def reflex_midpoint(repo: Repo) -> RuleRun:
+    """'written on the intended side': the three-point form of an angle-and-axis edge for sectors of more than half a turn. Same rule as C08.REFLEX-MIDPOINT."""
+    from ..report import rebrand
+    from . import c08
+
+    return rebrand(c08.reflex_midpoint(repo), PROP, "C07.REFLEX-MIDPOINT")
+
+
+reflex_midpoint.rule_id = "C07.REFLEX-MIDPOINT"
+
+RULES = [kind_registry, dedup, direction, reversal, face_edge_slots, curve_direction, edge_slots, length_direction, arc_side, validity_tolerance, own_edge_data, no_memo, reflex_midpoint]
